@@ -31,6 +31,7 @@ func createASTTypeExpr(pkg string, t types.Type, varPool *VarPool, imports map[s
 		}, nil
 	case *types.Named:
 		name := typ.Obj().Name()
+		var namedExpr ast.Expr = ast.NewIdent(name)
 		if objPkg := typ.Obj().Pkg(); objPkg != nil && objPkg.Path() != pkg {
 			// For types from other packages, create a selector expression
 			// Format: package.TypeName
@@ -49,13 +50,30 @@ func createASTTypeExpr(pkg string, t types.Type, varPool *VarPool, imports map[s
 				}
 			}
 
-			return &ast.SelectorExpr{
+			namedExpr = &ast.SelectorExpr{
 				X:   ast.NewIdent(pkgName),
 				Sel: ast.NewIdent(name),
-			}, nil
+			}
 		}
 
-		return ast.NewIdent(name), nil
+		// Instantiated generic type: spell the type arguments, e.g. Box[int]
+		if typeArgs := typ.TypeArgs(); typeArgs != nil && typeArgs.Len() > 0 {
+			indices := make([]ast.Expr, 0, typeArgs.Len())
+			for i := 0; i < typeArgs.Len(); i++ {
+				argExpr, err := createASTTypeExpr(pkg, typeArgs.At(i), varPool, imports)
+				if err != nil {
+					return nil, fmt.Errorf("type argument %d: %w", i, err)
+				}
+				indices = append(indices, argExpr)
+			}
+			if len(indices) == 1 {
+				return &ast.IndexExpr{X: namedExpr, Index: indices[0]}, nil
+			}
+
+			return &ast.IndexListExpr{X: namedExpr, Indices: indices}, nil
+		}
+
+		return namedExpr, nil
 	case *types.Alias:
 		name := typ.Obj().Name()
 		if objPkg := typ.Obj().Pkg(); objPkg != nil && objPkg.Path() != pkg {
